@@ -2,21 +2,23 @@
 Model.Proxy — `varlink bridge` (varlink-cli/src/proxy.rs, main.rs 354-410).
 
 * `run`        the request router `proxy::handle` (resolver mode), frame level:
-               GetInfo rewritten to the resolver, interface selection (from the
-               parameters for GetInterfaceDescription), resolve-on-change with the
+               GetInfo rewritten to the configured resolver, interface selection (from
+               the parameters for GetInterfaceDescription), resolve-on-change with the
                `last_iface` cache, a fresh connection per request, forwarding until
-               a reply without `continues`, oneway skip, hand-over to the byte pump
-               after a request with the `upgrade` flag
-* `upgradedPump`  what the upgraded hand-over does with the bytes the client's
-               buffered reader already holds (they are written to the *client*)
+               a reply without `continues`, oneway skip, `continue` after every
+               locally written error reply, hand-over to the byte pump after a
+               request with the `upgrade` flag
+* `bridge`     the same at byte level: `read_until` over a `BufReader`
+* `upgradedPump`  the upgraded hand-over: the bytes the client's buffered reader
+               already holds are written to the service, then two copy loops
 * `directMode` `proxy::handle_connect` (`--connect`, `--activate`, `--bridge`): two
-               copy loops; the `child.take().unwrap()` of the code is modelled
+               copy loops
 
-The world outside the bridge is a parameter: the resolver's answers (indexed by
-the number of `Resolve` calls made so far, so that a changing registry can be
-expressed), what `varlink_connect` reaches under an address (a `Service` of
-Model.Wire, or nothing), and the outcome of the one race the code exposes
-(`WatchClose::read` reports a hang-up before it reads data that arrived with it).
+This is the code after the fix commits 723e399, 78c09f9, 86882c4, 5599eab, 035a260,
+84fe826, ac1225d.  The world outside the bridge is a parameter: the configured
+resolver address, the resolver's answers (indexed by the number of `Resolve` calls
+made so far, so that a changing registry can be expressed), and what
+`varlink_connect` reaches under an address (a `Service` of Model.Wire, or nothing).
 Import: Model.Wire only.
 -/
 import VarlinkVerif.Model.Wire
@@ -28,19 +30,14 @@ def mGetInfo := "org.varlink.service.GetInfo"
 def mResolverGetInfo := "org.varlink.resolver.GetInfo"
 def mGetDesc := "org.varlink.service.GetInterfaceDescription"
 def resolverIfaceName := "org.varlink.resolver"
-/-- proxy.rs 76-78: not the `--resolver` argument -/
-def fixedResolverAddr := "unix:/run/org.varlink.resolver"
-
 structure World where
   consts : Consts
+  /-- the `--resolver` argument -/
+  resolverAddr : String
   /-- answer of the bridge's resolver connection to its k-th `Resolve(interface)` call -/
   resolve : Nat → String → Option String
   /-- what `varlink_connect(address)` reaches; `none`: the connect (or the address) fails -/
   svcAt : String → Option Service
-  /-- a service that writes replies to this request and then closes the connection:
-      does `WatchClose::read` see the hang-up together with the data (→ `BrokenPipe`,
-      nothing forwarded)? -/
-  hupWins : Request → Bool
 
 /-- the routing state kept between requests (proxy.rs 31-34) -/
 structure St where
@@ -51,7 +48,6 @@ deriving Repr, DecidableEq
 
 inductive End where
   | eof                -- the client closed: `Ok(false)`, exit status 0
-  | stopped            -- `return Ok(false)` after an InterfaceNotFound reply: exit status 0, the rest is never read
   | error              -- `Err(..)`: exit status 1
   | hang               -- blocked reading from a service that neither answers nor closes
   | upgraded (address : String) (svcUpgraded : Option String)
@@ -90,14 +86,14 @@ def selectIface (r : Request) : Sel :=
 def localReply (r : Request) (rep : Reply) : List Reply :=
   if isOneway r then [] else [rep]
 
-/-- proxy.rs 76-92: `some (address, state')`, or `none` when the resolver has no answer -/
-def route (w : World) (st : St) (i : String) : Option (String × St) :=
-  if i == st.lastIface then some (st.address, st)
-  else if i == resolverIfaceName then
-    some (fixedResolverAddr, { st with lastIface := i, address := fixedResolverAddr })
+/-- proxy.rs 85-100: the address to connect to (`none`: the resolver has no answer) and
+    the routing state afterwards; a failed lookup still was a `Resolve` call -/
+def route (w : World) (st : St) (i : String) : Option String × St :=
+  if i == st.lastIface then (some st.address, st)
+  else if i == resolverIfaceName then (some w.resolverAddr, { st with lastIface := i, address := w.resolverAddr })
   else match w.resolve st.nResolve i with
-    | some a => some (a, { lastIface := i, address := a, nResolve := st.nResolve + 1 })
-    | none => none
+    | some a => (some a, { lastIface := i, address := a, nResolve := st.nResolve + 1 })
+    | none => (none, { st with nResolve := st.nResolve + 1 })
 
 /-- forward until a reply without `continues`: what was forwarded, and whether the final one was seen -/
 def forwardReplies : List Reply → List Reply × Bool
@@ -112,31 +108,34 @@ inductive Step where
   | next (out : List Reply) (st : St) (sent : List (String × Request))
   | stop (out : List Reply) (status : End) (sent : List (String × Request))
 
-/-- one iteration of the loop for a decoded request (proxy.rs 46-137) -/
+/-- one iteration of the loop for a decoded request (proxy.rs 52-150).  A service that
+    closes its connection ends the inner reply loop (`read_until` returns 0 once the
+    pending data has been delivered) and the outer loop goes on. -/
 def step (w : World) (st : St) (r0 : Request) : Step :=
   let r := rewrite r0
   match selectIface r with
-  | .noDot => .stop (localReply r (errInterfaceNotFound r.method)) .stopped []
-  | .badArgs => .stop [] .error []
+  | .noDot => .next (localReply r (errInterfaceNotFound r.method)) st []
+  | .badArgs =>
+    if r.parameters.isNone then .next (localReply r (errInvalidParameter "parameters")) st []
+    else .stop [] .error []          -- `from_value(val)?`
   | .iface i =>
     match route w st i with
-    | none => .stop (localReply r (errInterfaceNotFound i)) .stopped []
-    | some (addr, st') =>
+    | (none, st') => .next (localReply r (errInterfaceNotFound i)) st' []
+    | (some addr, st') =>
       match w.svcAt addr with
-      | none => .stop (localReply r (errInterfaceNotFound i)) .stopped []
+      | none => .next (localReply r (errInterfaceNotFound i)) st' []
       | some svc =>
         let res := callOne w.consts svc r
         let sent := [(addr, r)]
         if isOneway r then .next [] st' sent
-        else if !res.ok && res.out != [] && w.hupWins r then .stop [] .error sent
         else if r.upgrade == some true then
           match res.out with
           | rep :: _ => .stop [rep] (.upgraded addr res.upgraded) sent
-          | [] => .stop [] (if res.ok then .hang else .error) sent
+          | [] => if res.ok then .stop [] .hang sent else .stop [] (.upgraded addr res.upgraded) sent
         else
           let (fwd, fin) := forwardReplies res.out
-          if fin then .next fwd st' sent
-          else .stop fwd (if res.ok then .hang else .error) sent
+          if fin || !res.ok then .next fwd st' sent
+          else .stop fwd .hang sent
 
 /-- `proxy::handle` over the decoded frames the client sends (it keeps its side open
     until everything is answered; `eof` = it then closes) -/
@@ -157,63 +156,36 @@ def copyLoop : List Bytes → Bytes
   | [] => []
   | c :: cs => c ++ copyLoop cs
 
-/-- the upgraded hand-over (proxy.rs 139-146): `buffered` is what the client's
+/-- the upgraded hand-over (proxy.rs 152-160): `buffered` is what the client's
     `BufReader` still holds after the upgrading request, `later` what the client
-    sends afterwards (as a read schedule).  As coded, the buffered bytes go to the
-    **client** writer; only the later bytes reach the service.  `svcOut` must map
-    the empty input to the empty output for the partial theorem (a service that
-    speaks first is outside the model of the hand-over). -/
+    sends afterwards (as a read schedule); `svcOut` maps the bytes the upgraded
+    service receives to the bytes it sends. -/
 structure Pumped where
   toService : Bytes
   toClient : Bytes
 deriving Repr, DecidableEq
 
-/-- `std::io::Stdout` is line buffered: of bytes written without a flush, those up to
-    and including the last `\n` reach the descriptor, the rest stays pending -/
-def lineFlushed : Bytes → Bytes
-  | [] => []
-  | b :: bs =>
-    let rest := lineFlushed bs
-    if rest != [] then b :: rest else if b = 10 then [b] else []
-
 def upgradedPump (svcOut : Bytes → Bytes) (buffered : Bytes) (later : List Bytes) : Pumped :=
-  let ts := copyLoop later
-  let out := svcOut ts
-  -- the buffered bytes are written to the client's writer without a flush; the copy loop
-  -- flushes with every chunk from the service; at the end the process aborts (descriptor
-  -- closed twice, proxy.rs 176/190), so what is still pending then is lost
-  { toService := ts, toClient := if out = [] then lineFlushed buffered else buffered ++ out }
-
-/-- what a transparent hand-over does -/
-def idealPump (svcOut : Bytes → Bytes) (buffered : Bytes) (later : List Bytes) : Pumped :=
-  let ts := buffered ++ copyLoop later
+  let ts := buffered ++ copyLoop later      -- `service_writer.write_all(client_bufreader.buffer())`, then the copy loop
   { toService := ts, toClient := svcOut ts }
 
-inductive DirectOut where
-  | panicked                       -- `conn.child.take().unwrap()` on a connection without child
-  | pumped (p : Pumped)
-deriving Repr, DecidableEq
-
-/-- `proxy::handle_connect`: `svcOut` maps the bytes the service receives to the bytes
-    it sends; `clientReads` / `svcSched` are the read schedules of the two copy loops -/
-def directMode (hasChild : Bool) (svcOut : Bytes → Bytes) (clientReads : List Bytes)
-    (svcSched : Bytes → List Bytes) : DirectOut :=
-  if !hasChild then .panicked
-  else
-    let ts := copyLoop clientReads
-    .pumped { toService := ts, toClient := copyLoop (svcSched (svcOut ts)) }
+/-- `proxy::handle_connect`: `clientReads` / `svcSched` are the read schedules of the
+    two copy loops (whether the connection has a child process no longer matters) -/
+def directMode (svcOut : Bytes → Bytes) (clientReads : List Bytes) (svcSched : Bytes → List Bytes) : Pumped :=
+  let ts := copyLoop clientReads
+  { toService := ts, toClient := copyLoop (svcSched (svcOut ts)) }
 
 /-! ### what a transparent bridge would do (the specification side) -/
 
 /-- the address an interface has at "time" `k` when nothing is cached -/
-def resolveAddr (w : World) (resolverAddr : String) (k : Nat) (i : String) : Option String :=
-  if i == resolverIfaceName then some resolverAddr else w.resolve k i
+def resolveAddr (w : World) (k : Nat) (i : String) : Option String :=
+  if i == resolverIfaceName then some w.resolverAddr else w.resolve k i
 
 /-- per request: the service the client would talk to directly, and the request it would
     send (`GetInfo` goes to the configured resolver) -/
-def target (w : World) (resolverAddr : String) (k : Nat) (r0 : Request) : Option (String × Service) :=
+def target (w : World) (k : Nat) (r0 : Request) : Option (String × Service) :=
   match selectIface (rewrite r0) with
-  | .iface i => (resolveAddr w resolverAddr k i).bind fun a => (w.svcAt a).map fun s => (a, s)
+  | .iface i => (resolveAddr w k i).bind fun a => (w.svcAt a).map fun s => (a, s)
   | _ => none
 
 end Proxy
